@@ -91,4 +91,13 @@ AmbigParts ==
              "trentaduesimo", "trentaduesima">>,
     de |-> <<"eins zwei", "einundzwanzigste", "einundzwanzigster", "einundzwanzigsten", "zweihundertste", "zweihundertster">>,
     nl |-> <<"een twee", "eenentwintigste", "tweehonderdste", "drieënvijftigste">> ]
+
+\* spelled numbers beyond 2^53 (the digits must be kept exactly, the value is the float reading of the text)
+BigParts ==
+  [ en |-> <<"ninety million billion eighteen", "nine hundred thousand billion and one">>,
+    fr |-> <<"quatre-vingt-dix millions milliards dix-huit">>,
+    es |-> <<"noventa mil millones">>, pt |-> <<"noventa mil milhões">>,
+    it |-> <<"novantamila bilioni e diciotto", "novantamila bilioni diciottesimo">>,
+    de |-> <<"neunzigtausend billion achtzehn", "neunzigtausend billion achtzehnte">>,
+    nl |-> <<"negentigduizend biljoen achttien">> ]
 =============================================================================
